@@ -368,18 +368,68 @@ func checkReread(r *vt.Run, t vt.TB, s rereadSpec) {
 	if int(img[s.Offset]) == s.Value {
 		return
 	}
+	// table and index objects obtained in one transaction and used again in
+	// the next (their pages are in the handle's cache by then)
+	var keptT *sdb.Table
+	var keptW *sdb.Index
+	var keptBase []string
+	keptRead := func() (rows []string, err error) {
+		if err := d.RLock(); err != nil {
+			return nil, err
+		}
+		defer d.RUnlock()
+		err = keptT.Scan(func(rowid int64, rec sdb.Record) bool {
+			rows = append(rows, fmt.Sprintf("low:%d:%v", rowid, rec))
+			return false
+		})
+		if e := keptW.Scan(func(rec sdb.Record) bool {
+			rows = append(rows, fmt.Sprintf("loww:%v", rec))
+			return false
+		}); err == nil {
+			err = e
+		}
+		return rows, err
+	}
+	if e := d.RLock(); e == nil {
+		keptT, _ = d.Table("t")
+		keptW, _ = d.NonRowidTable("w")
+		d.RUnlock()
+	}
+	if keptT == nil || keptW == nil {
+		r.Harness(t, "good image: table objects not available")
+	}
+	if keptBase, err = keptRead(); err != nil {
+		r.Harness(t, "good image: reading through kept table objects: %v", err)
+	}
 	// another connection rewrites the header between two transactions
 	mem.Img[s.Offset] = byte(s.Value)
 	class, why := classify(mem.Img[:100], s.PageSize)
 	key := uint64(1)<<40 | uint64(s.PageSize)<<20 | uint64(s.Offset)<<8 | uint64(s.Value)
 	r.CaseKey(key, class == mustReject, "reread:"+class+":"+fieldName(s.Offset), func() interface{} { return s })
 	var pan interface{}
+	var krows []string
+	var kerr error
 	func() {
 		defer func() { pan = recover() }()
+		krows, kerr = keptRead()
 		rows, err = readAll(d)
 	}()
 	if pan != nil {
 		r.Violation(t, s, "reread:panic", "header byte %d changed to %d under an open handle: panic %v", s.Offset, s.Value, pan)
+		return
+	}
+	switch {
+	case class == mustReject && kerr == nil:
+		r.Violation(t, s, "reread:kept-objects:accepted:"+why, "header byte %d (%s) changed to %d (%s) under an open handle: the next transaction, through Table/Index objects obtained in the previous one, reads %d rows without error", s.Offset, fieldName(s.Offset), s.Value, why, len(krows))
+		return
+	case class == mustReject && len(krows) > 0:
+		r.Violation(t, s, "reread:kept-objects:rows:"+why, "header byte %d (%s) changed to %d (%s) under an open handle: kept Table/Index objects give error %v but %d rows", s.Offset, fieldName(s.Offset), s.Value, why, kerr, len(krows))
+		return
+	case class == mustAccept && (kerr != nil || !equalStrings(krows, keptBase)):
+		r.Violation(t, s, "reread:kept-objects:rejected:"+fieldName(s.Offset), "header byte %d (%s) changed to %d under an open handle: kept Table/Index objects: err %v, rows equal %v", s.Offset, fieldName(s.Offset), s.Value, kerr, equalStrings(krows, keptBase))
+		return
+	case class == either && kerr == nil && !equalStrings(krows, keptBase):
+		r.Violation(t, s, "reread:kept-objects:rows-differ:"+fieldName(s.Offset), "header byte %d (%s) changed to %d under an open handle: kept Table/Index objects read other rows", s.Offset, fieldName(s.Offset), s.Value)
 		return
 	}
 	switch class {
